@@ -16,6 +16,12 @@ and the extracted Coq model (coq/OpbText.v, coq/Latex.v):
          decoder rows_of_latex (model) applied to the implementation's text must give
          one row per clause / constraint with that row's literal tokens, \\square for
          the empty clause and \\top only for the empty formula.
+Run first, as a corpus (notes/LARGE_STREAMS.md): huge (OPB / LaTeX of more than 8 and 16 MiB, more than 65536 and
+131072 constraints / rows, constraints of 30000 terms, coefficients up to 2^64: the statement checked directly with
+the harness's own OPB reader and LaTeX row decoder, which are tied to the model's on every small case), thresholds
+(coefficients, degrees, variable numbers, widths, row and page counts, field and name lengths; exact), shapes
+(destinations, file names that merely end in the letters of an extension, `cnfgen -o` / `pbgen -o`, names outside
+ASCII in-process and in a C-locale process) and history (one object edited between renderings).
 Header fields and variable names with line breaks are compared byte for byte too
 (print_opb models the writer after the repair of D4); a text equal to
 print_opb_as_found on such an input is the old defect come back and is reported
@@ -609,6 +615,9 @@ def run_shapes(ctx, cnfgen, quick):
     # ---- (1) every kind of destination x explicit / implicit format
     for flabel, is_opb, mk, names in forms:
         F = mk()
+        descr = dict(formula=flabel, output='to_latex()', names=list(F.all_variable_labels(default_label_format='x_{}')))
+        ctx.count('shapes-destination', (flabel, 'to_latex()'), True, sample=descr)
+        direct_latex(ctx, descr, F.to_latex(), mem_constraints(F, is_opb), is_opb, descr['names'], False)
         for dlabel, op, seen in c06.destinations(tmp, quick, extra_names=(b'bytes.tex', b'bytes.opb', 'a.cnf.tex', 'cover_vertex.opb')):
             for request in (None, 'opb', 'latex'):
                 expected = documented_format('x' if seen is None or seen == 0 else seen, request, is_opb)
